@@ -2,6 +2,7 @@ package main
 
 import (
 	"fmt"
+	"time"
 
 	"verif/engine/ev"
 )
@@ -41,7 +42,8 @@ func scenarios(r *ev.Run) []scenario {
 		WOps:  []string{"sb:0", "sb:1", "sb:2", "pr:1", "pr:2"},
 		ROps:  nil,
 		Depth: r.Pick(4, 5)}
-	return []scenario{kc, k3, kb, bl, bl2, pr}
+	// cheapest first: if the time box is hit under load it is the largest space that is capped
+	return []scenario{pr, bl2, kb, k3, bl, kc}
 }
 
 func partSeq(r *ev.Run, viols *violSet) {
@@ -61,9 +63,21 @@ func partSeq(r *ev.Run, viols *violSet) {
 	}
 	var rows []row
 	alph := map[string]interface{}{}
-	for _, sc := range scenarios(r) {
+	scs := scenarios(r)
+	items, done := 0, 0
+	for _, sc := range scs {
+		items += len(sc.Cfgs)
+	}
+	partEnd := partDeadline
+	defer func() { partDeadline = partEnd }()
+	for _, sc := range scs {
 		alph[sc.Name] = map[string]interface{}{"writable_tx_ops": sc.WOps, "readonly_tx_ops": sc.ROps, "max_committed_tx": sc.MaxTx, "max_reopen": sc.Reopen, "held_reader": sc.Hold, "inner_op_budget": sc.Depth}
 		for _, c := range sc.Cfgs {
+			// every (scenario, cfg) gets an equal share of what is left of the slice
+			if left := time.Until(partEnd); !partEnd.IsZero() && left > 0 {
+				partDeadline = time.Now().Add(left / time.Duration(items-done))
+			}
+			done++
 			x := &explorer{r: r, sc: sc, cfg: c, viols: viols}
 			complete := x.explore()
 			if len(x.harn) > 0 {
